@@ -116,7 +116,7 @@ func (r *objectSetPhasesReconciler) Reconcile(
 		return res, preflightErr
 	}
 
-	controllers.DeleteMappedConditions(ctx, objectSet.GetConditions())
+	defer controllers.DeleteMappedConditions(ctx, objectSet.GetConditions())()
 
 	controllerOf, probingResult, err := r.reconcile(ctx, objectSet)
 	if controllers.IsExternalResourceNotFound(err) {
